@@ -6,25 +6,45 @@ from .props import PROPS
 
 ALL = [json.loads(l)["id"] for l in open(os.path.join(C.VERIF, "properties.jsonl"))]
 
-DESIGN_REF = {p: "DESIGN.md section 4 (" + p + ")" for p in ALL}
+# What each check's Lean part really establishes and what is decided on the real code only.  Kept by hand, per
+# property, on purpose (an audit rightly objected to a uniform template).  "full" = the property as stated, on the
+# model, for all inputs in the stated domain; the model is tied to /repo by the listed streams on every run.
+CLAIMS = {
+    "C01": "FULL on the model for trees built from JSON/JSON5/YAML/plist documents, CSV tables, XML/HTML elements and top-level multisets: script_accounts / xml_script_accounts / mset_accounts — every child of both containers is accounted for exactly once at every nesting level, in order for lists and strings, up to permutation for mappings, for every solver answer (the model cuts an answer down to a partial injection; a non-injective real answer would show as a model/code disagreement). Needs distinct keys per mapping (true of every parsed document, proved for build). Not covered: multisets nested inside multisets.",
+    "C02": "FULL on the model: zero_cost_iff_eq, eq_iff_dataEq, zero_cost_iff_dataEq (cost 0 iff equal as data against an independent specification Doc.dataEq), positive_edit_exists; XML twins incl. the witness of finding D23 (tail text dropped). exit_status_iff is definitional (exit = cost > 0); that the real command follows it is checked by the cli and matrix streams. Domain excludes NaN, -0.0 and numerically equal int/float pairs.",
+    "C03": "PARTLY definitional: for key/value, positional, multiset and fixed-key edits the model DEFINES the reported cost as the sum of the parts (mirroring the repaired code), so reported_eq_sum carries real content only for EditDistance / StringEdit (solve_total_eq_sum) and for the XML layer; that the real bounds() of every compound edit equals that sum is established by the exact correspondence (cost field of every node) and the monitor, which is what caught defects D6, D7 and finding D21. three_views_agree is a traversal identity on the model; the three real views are compared by the monitor.",
+    "C04": "engine_protocol / editDistance_protocol / editCollection_protocol / fixedLen_protocol: the lazy machines (constant, key/value, string, positional list, EditDistance with its fringe sweep and freed matrix, EditCollection) obey the protocol (intervals nested, contain the final cost, progress strictly shrinks for an observer who read bounds(), False only on a single value, a decreasing measure) for every pair of trees whose FROM side contains no DictNode (dict strategy none, lists, strings), with the static bound of mkEdit_initial_bounds. NOT proved: MultiSetEdit / WeightedBipartiteMatcher (every comparison of two mappings under the default strategy) — modelled exactly with oracles and covered by the trace correspondence and the passive monitor only. Findings D21 (duplicate multiset elements) and D24 (EditCollection's static cap) are recorded.",
+    "C05": "no_internal_error, observations_nested, history_independent, mkEdit_refines_L2, history_independent_L2: after ANY sequence of the public operations, under either setting of quiet, finishing yields exactly the L2 script and cost — proved for every pair of trees whose FROM side contains no DictNode. Mappings under the default strategy (MultiSetEdit) are covered by the exact history correspondence and the monitor only. Colour/status settings beyond `quiet` are exercised by the stream, not modelled.",
+    "C06": "project_from / project_to / marks_iff on the model of the JSON colour rendering: both projections of the rendered (character, mark) sequence tokenise to the respective document up to the order of object members, and marks appear iff the documents differ — unconditional for documents with distinct keys. The statement uses a tokenizer, not a JSON parser, and the ANSI-mark rendering only; the plain-text (~~ ++) rendering and the real parser are exercised by the monitor.",
+    "C07": "MOSTLY RUNTIME: the only Lean obligation is a tripwire (set_sites_reviewed: the regenerated table of every iteration over a set/frozenset in the package is contained in a reviewed list, so a new hash-ordered loop breaks the build). Determinism across hash seeds and processes, absence of hidden state across invocations and non-mutation of inputs are decided on the real code by the determinism stream (PYTHONHASHSEED 0-3 / 0-8, reversed order, diff-of-diff-result snapshot). Key-order independence of the model is C08.",
+    "C08": "FULL on the model: build_perm_dict / dict_perm_script (permuting keys at any depth yields the identical tree and script under the auto and match strategies), perm_equal / perm_cost_zero (every strategy), fdict_perm_cost (strategy none, any depth) and fdict_perm_pairing (strategy none, ROOT mapping only), list_swap_positive.",
+    "C09": "THIN: in the model the JSON, JSON5 and YAML loaders are the same function (build) and plist adds a wrapper, so same_data_zero / third_doc_independent are consequences of C02 (equal trees cost 0) plus that modelling decision; the real content is (i) the ASSUMPTION, checked on every run, that the four real parsers return equal Python objects, (ii) the exact correspondence of the 4x4 zero-cost matrix and exit statuses incl. explicit type flags, and (iii) the witness theorem for finding D10 (plist on the to-side is a Replace).",
+    "C10": "FULL on the model at every nesting level: none_no_cross_key, none_no_multiset, auto_same_key_paired, no_list_edits_positional, no_list_edits_same_length_positional (lists and mappings built by build_tree; the list options never reach XML children or CSV rows, which is stated). The stream exercises 6 of the 16 option combinations.",
+    "C11": "FULL on the model: string_edit_minimal, kept_longest, removed_plus_inserted_minimal, strScript_reconstructs against an independent specification (List.Sublist, lcs); the greedy matrix of EditDistance is proved to compute the optimal insert/delete distance on unit-cost characters (it is NOT optimal on weighted lists, which no property claims). str strings only (a diff of bytes raises TypeError in the code).",
+    "C12": "read_print (JSON: any nesting the printer can handle, all code points incl. lone surrogates, any integer; floats opaque) and csv_read_print (cells without CR) on the model of printer and reader; JSON5 shares the JSON printer and, since the loader fix, the surrogate-joining reader. YAML, plist and XML round trips are decided on the real code only. The real printer hits Python's recursion limit at about 150-200 levels of nesting (outside the exercised domain: depth <= 30).",
+    "C13": "dispatch_total / dispatch_total_from_subformatters: over the regenerated formatter registry and class MROs, the formatter dispatch finds a print_* handler for every concrete node class (plain and Edited variants) from every formatter instance — no fallback needed; edit_dispatch_total records that every edit class has a formatter method or its own print. The ~1500 lines of handler BODIES are not modelled: that half is decided on the real code by exhaustive enumeration of input type x output format x mode x colour x condensed x option flags (thorough: 17k runs). Findings D11, D18.",
+    "C14": "alias_from_type, explicit_mime_wins, explicit_type_wins, second_file_ignores_first_file_options, alias_k, alias_j over the regenerated file-type tables: main()'s selection logic. argparse's own parsing and the byte-level agreement with the library are decided by the cli stream (exact comparison of parsers invoked, options built, outputs of equivalent spellings, command vs library).",
+    "C15": "FULL for every solver answer meeting the stated contract: result_is_injection, only_existing_pairs, reports_true_weights, pairs_min_n_m, total_is_minimum, null_value_dominates, get_dtype_sound (regenerated table). scipy itself is a parameter: every recorded answer is validated against the contract (brute force for n,m <= 6). Weights >= 0, |w| < 2^53.",
+    "C16": "FULL on a structure-exact model: reachable_inv (invariant over all operation sequences), reachable_no_index_error, size_eq_live, peek_is_min, pop_is_min and the max-heap twins, smallest/largest_correct.",
+    "C17": "lt_terminates, lt_consistent, le_correct, min_bounded_min, make_distinct_post / make_distinct_terminates (every admissible choice), search_returns_min, search_bounds_point, search_bounds_sound, search_terminates (default initial bounds, every heap oracle) — full; sort_sorted_partial assumes a heap contract that is checked on every run instead of being derived from the C16 model.",
+    "C18": "to_obj_build, entry_points_agree, copy_eq, sharing_not_cycle, build_terminates(_checked), cycle_detected, cycle_placeholder for lists/tuples/dicts/sets/scalars through BasicBuilder, pydiff.build_tree and json.build_tree; placeholder presence through dict-valued cycles, custom objects and the pydiff.diff entry point are covered by the stream only. Findings copy-neq/cyclicref, copy-neq/pyobj.",
+    "C19": "no_underscore_getattr, names_resolved(_default), whitelist_eq_documented, reflective_member_refused, safe_method_intercepted for ALL token sequences: the evaluator itself never issues an underscore getattr and resolves only given names and the documented whitelist. That no reachable public method hands out private state is an ASSUMPTION about the host, validated by tripwires; it is known to be false for TreeNode.editable_dict (finding D26).",
+    "C20": "handlers_cover over the regenerated except-clause table and exception MROs: every exception class the external parser of a text format is ASSUMED to raise on invalid syntax is caught by that format's loader; error_path_* restate main()'s three-line error branch. Which classes the parsers really raise, and the message text, are decided by the fault enumeration on the real code (truncation at every byte, delimiter corruption, deep nesting, invalid UTF-8, under several option sets).",
+}
 
 
 def main():
     checks = []
+    modules = []
     for p in ALL:
         if p not in PROPS:
             continue
         spec = PROPS[p]
         thms = spec.get("theorems", [])
-        partial = spec.get("partial", "")
-        text = (f"{len(thms)} Lean 4 theorems about a hand-written executable model of the code ("
-                + ", ".join(spec.get("lean_modules", [])) + "), quantified over all inputs/histories the property names; "
-                "the model is tied to /repo's working tree on every run by a differential correspondence run (streams: "
-                + ", ".join(spec.get("streams", [])) + ") plus an independent monitor of the property on the real code, which is also the failing-input search when a proof obligation or the correspondence breaks.")
-        if partial:
-            text += " PARTIAL: " + partial
-        if not thms:
-            text += " (no property theorem yet: the check currently rests on the correspondence run and the monitor only.)"
+        for m in spec.get("lean_modules", []):
+            if m not in modules:
+                modules.append(m)
+        text = CLAIMS.get(p, "") + f" [{len(thms)} registered theorems in {', '.join(spec.get('lean_modules', []))}; streams: {', '.join(spec.get('streams', []))}]"
         checks.append({
             "property_id": p,
             "quick_cmd": f"./check {p} --tier quick",
@@ -32,16 +52,16 @@ def main():
             "evidence_file": f"evidence/{p}.json",
             "replay_cmd_template": f"./check {p} --replay {{path}}",
             "engine": "lean-model+harness",
-            "level_claimed": {"category": "proof", "text": text, "design_ref": DESIGN_REF[p]},
-            "level_note": "Trusted: Lean 4.33 kernel; axioms of every listed theorem are printed on each run and must be within {propext, Classical.choice, Quot.sound}; "
-                          "no sorry/admit/native_decide/bv_decide/implemented_by/unsafe (source audit on each run). The model describes the code only as far as the "
-                          "correspondence run has compared them (input distribution in the evidence file). " + " ".join(spec.get("assumptions", [])),
+            "level_claimed": {"category": "proof", "text": text, "design_ref": "DESIGN.md section 4 (" + p + ")"},
+            "level_note": "Trusted: Lean 4.33 kernel; axioms of every registered theorem are printed on each run and must be within {propext, Classical.choice, Quot.sound}; "
+                          "no sorry/admit/native_decide/bv_decide/implemented_by/unsafe (source audit on each run). The hand-written model describes the code only as far as the "
+                          "correspondence run has compared them (input distribution in the evidence file). " + " ".join(spec.get("assumptions", []))[:1500],
             "technique": "Lean 4 theorems over an executable model + differential correspondence with /repo (line protocol) + property monitor / failing-input search",
         })
-    na = [{"property_id": p, "reason": "check not built yet (work in progress; will be claimed)"} for p in ALL if p not in PROPS]
+    na = [{"property_id": p, "reason": "check not built"} for p in ALL if p not in PROPS]
     m = {
         "version": 1,
-        "setup_cmd": "cd lean && lake build",
+        "setup_cmd": "cd lean && lake build gtdriver " + " ".join(modules),
         "hooks": {"guard": "GRAPHTAGE_VERIF",
                   "enable": "no source hooks: the harness imports /repo's working tree in worker subprocesses (PYTHONPATH=/repo) and wraps functions from outside at import time",
                   "baseline_off_cmd": "cd /repo && /venv/bin/python -m pytest -ra -q -p no:cacheprovider --timeout=900 --continue-on-collection-errors",
@@ -52,11 +72,13 @@ def main():
             {"name": "harness", "path": "harness/", "serves_properties": [c["property_id"] for c in checks],
              "kind_free_text": "Python: case generators, real-code workers, correspondence differ, property monitors, shrinking, failing-input search, Gen-table translators"}],
         "checks": checks,
-        "notes": "See DESIGN.md. known_findings.json lists genuine defects recorded rather than repaired and the fix: commits made in /repo.",
+        "notes": "See DESIGN.md. known_findings.json lists genuine defects recorded rather than repaired and the fix: commits made in /repo. "
+                 "The level category is `proof` for every check because that is the technique; the per-check text says which part of the property is a theorem and which part is decided on the real code only.",
         "not_applicable": na,
     }
     json.dump(m, open(os.path.join(C.VERIF, "MANIFEST.json"), "w"), indent=1)
     print("checks:", [c["property_id"] for c in checks], "not yet:", [x["property_id"] for x in na])
+    print("setup:", m["setup_cmd"][:200], "...")
 
 
 if __name__ == "__main__":
